@@ -20,7 +20,7 @@ run_asan() {
     mkdir -p "$HERE/sim/target"
     (cd "$HERE/sim" && RUSTFLAGS="-Zsanitizer=address --cfg virtio_drivers_verif" cargo +nightly build --offline --target x86_64-unknown-linux-gnu --profile wrapping --target-dir "$HERE/sim/target/asan" >"$log" 2>&1) || { tail -30 "$log"; echo "HARNESS-ERROR: ASan build failed"; return 2; }
     local out="$HERE/sim/target/asan-$id.out"
-    ASAN_OPTIONS=detect_leaks=0:abort_on_error=0:exitcode=99 VERIF_SCALE="${VERIF_ASAN_SCALE:-0.2}" VERIF_EVIDENCE_SUFFIX=".asan" \
+    ASAN_OPTIONS=detect_leaks=0:abort_on_error=0:exitcode=99 VERIF_SCALE="${VERIF_ASAN_SCALE:-0.1}" VERIF_EVIDENCE_SUFFIX=".asan" \
         "$HERE/sim/target/asan/x86_64-unknown-linux-gnu/wrapping/vdsim" check "$id" --tier "$tier" >"$out" 2>&1
     local rc=$?
     grep -v "^KNOWN-FINDING" "$out" | tail -3
